@@ -152,7 +152,16 @@ func hardcode() {
 }
 
 // c15History runs one sequential history over a pool and returns the final event signatures per group.
-func c15History(c *mon.Ctx, r *mon.Rand, pool []logenc.Group, nops int) {
+func c15History(c *mon.Ctx, r *mon.Rand, pool []logenc.Group, nops int) (key string, nontrivial bool) {
+	var kaseOps []string
+	defer func() {
+		var sb strings.Builder
+		for _, g := range pool {
+			sb.WriteString(strings.Join(g.Lines, "\n"))
+			sb.WriteString("\n--\n")
+		}
+		key = sb.String() + strings.Join(kaseOps, ";")
+	}()
 	kase := &c15Case{Groups: pool}
 	msgs := make([][]*auparse.AuditMessage, len(pool))
 	snaps := make([][]msgSnap, len(pool))
@@ -186,6 +195,10 @@ func c15History(c *mon.Ctx, r *mon.Rand, pool []logenc.Group, nops int) {
 		case x < 6:
 			i := r.Intn(len(pool))
 			kase.Ops = append(kase.Ops, fmt.Sprintf("coalesce %d", i))
+			kaseOps = kase.Ops
+			if done[i] {
+				nontrivial = true
+			}
 			if !done[i] {
 				for _, m := range msgs[i] {
 					snaps[i] = append(snaps[i], snapMsg(m))
@@ -224,6 +237,10 @@ func c15History(c *mon.Ctx, r *mon.Rand, pool []logenc.Group, nops int) {
 			}
 			j := r.Intn(len(held))
 			kase.Ops = append(kase.Ops, fmt.Sprintf("resolve %d", j))
+			kaseOps = kase.Ops
+			if len(held) > 1 {
+				nontrivial = true
+			}
 			if p, st := mon.Try(func() { aucoalesce.ResolveIDs(held[j].e) }); p != nil {
 				fail("panic:"+mon.PanicSite(st), "ResolveIDs panicked: %v\n%s", p, st)
 				return
@@ -247,6 +264,7 @@ func c15History(c *mon.Ctx, r *mon.Rand, pool []logenc.Group, nops int) {
 		}
 		c.Add("rechecks", int64(len(held)))
 	}
+	return
 }
 
 func c15Concurrent(c *mon.Ctx) {
@@ -322,9 +340,11 @@ func init() {
 			c.ForEach(n, func(w, i int) {
 				r := c.Rand(1, uint64(i))
 				pool := c15Pool(r, corpus, hostile, r.Range(6, 12))
-				c15History(c, r, pool, r.Range(8, 40))
+				key, nontrivial := c15History(c, r, pool, r.Range(8, 40))
 				ev.Add(1)
-				nt.AddString(fmt.Sprint(i))
+				if nontrivial {
+					nt.AddString(key)
+				}
 				if c.WantSample() {
 					c.Sample(map[string]any{"pool_groups": len(pool), "first_group": clipStr(strings.Join(pool[0].Lines, " // "), 200)})
 				}
